@@ -21,9 +21,12 @@ package cache
 //@ pred wf(ca) = shape(ca) && unique(ca) && sized(ca) && acct(ca) && capped(ca)
 //@ ghost top(ca) = ca.Cache[len(ca.Cache)-1]
 // the value and scope of a visible symbol
+// every scope after an operation is a scope that existed before or a newly allocated map
+//@ pred scopesKnown(ca) = forall(i, 0, len(ca.Cache), fresh(ca.Cache[i]) || exists(j, 0, old(len(ca.Cache)), ca.Cache[i] == old(ca.Cache[j])))
 //@ pred sameScopes(ca) = len(ca.Cache) == old(len(ca.Cache)) && forall(i, 0, len(ca.Cache), ca.Cache[i] == old(ca.Cache[i]))
 
 //@ func (*Cache).frameOf
+//@   serves C09
 //@   requires shape(ca)
 //@   ensures @range result >= -1 && result < len(ca.Cache)
 //@   ensures @found result >= 0 ==> in(key, ca.Cache[result]) && forall(j, 0, result, !in(key, ca.Cache[j]))
@@ -33,19 +36,22 @@ package cache
 //@     && all[string](k, visited(k) ==> k != key)
 
 //@ func (*Cache).checkCapacity
+//@   serves C09
 //@   requires ca != nil && (ca.CacheSize > 0 ==> int(ca.CacheUseSize) + len(v) < 4294967296)
 //@   ensures @unlimited ca.CacheSize == 0 ==> int(result) == len(v)
 //@   ensures @fits ca.CacheSize > 0 && int(ca.CacheUseSize) + len(v) <= int(ca.CacheSize) ==> int(result) == len(v)
 //@   ensures @full ca.CacheSize > 0 && int(ca.CacheUseSize) + len(v) > int(ca.CacheSize) ==> result == 0
 
 //@ func NewCache
-//@   ensures[C09] @wf wf(result) && fresh(result) && len(result.Cache) == 1 && result.CacheUseSize == 0 && result.CacheSize == 0
-//@   ensures[C09] @empty all[string](k, !in(k, result.Cache[0])) && msum(result.Cache[0]) == 0
+//@   serves C09
+//@   ensures @wf wf(result) && fresh(result) && len(result.Cache) == 1 && result.CacheUseSize == 0 && result.CacheSize == 0
+//@   ensures @empty all[string](k, !in(k, result.Cache[0])) && msum(result.Cache[0]) == 0
 //@   use tsumOne(result.Cache, 0)
 
 //@ pred mapsOk(ca) = forall(i, 0, len(ca.Cache), ca.Cache[i] != nil)
 //@   && forall(i, 0, len(ca.Cache), forall(j, 0, i, ca.Cache[i] != ca.Cache[j]))
 //@ func (*Cache).Push
+//@   serves C09
 //@   requires ca != nil
 //@   modifies ca.Cache, ca.Cache[*]
 //@   ensures @len len(ca.Cache) == old(len(ca.Cache)) + 1 && result == nil
@@ -54,6 +60,7 @@ package cache
 //@   ensures @maps old(mapsOk(ca)) ==> mapsOk(ca)
 //@   ensures @backing sameBacking(ca.Cache, old(ca.Cache)) || fresh(ca.Cache)
 //@   ensures @rest unchanged(ca.Sizes, ca.CacheUseSize, ca.CacheSize)
+//@   ensures @known scopesKnown(ca)
 //@   ensures[C09,C08,C05] @unique old(unique(ca)) ==> unique(ca)
 //@   ensures[C09,C08,C05] @sized old(sized(ca)) ==> sized(ca)
 //@   ensures[C09,C08,C05] @acct old(shape(ca) && acct(ca) && capped(ca)) ==> acct(ca) && capped(ca)
@@ -61,12 +68,14 @@ package cache
 //@   use tsumSplit(ca.Cache, 0, len(ca.Cache)-1, len(ca.Cache)) && tsumOne(ca.Cache, len(ca.Cache)-1) && tsumSame(ca.Cache, 0, len(ca.Cache)-1)
 
 //@ func (*Cache).Pop
+//@   serves C09
 //@   requires shape(ca)
 //@   requires[C09,C08,C05] unique(ca) && sized(ca) && acct(ca) && capped(ca)
 //@   modifies ca.Cache, ca.Cache[*], ca.CacheUseSize, ca.Sizes[*]
 //@   ensures @shape shape(ca) && result == nil
 //@   ensures @backing sameBacking(ca.Cache, old(ca.Cache)) || fresh(ca.Cache)
 //@   ensures @levels len(ca.Cache) == max(1, old(len(ca.Cache)) - 1)
+//@   ensures @known scopesKnown(ca)
 //@   ensures[C09,C08,C05] @unique unique(ca)
 //@   ensures[C09,C08,C05] @sized sized(ca)
 //@   ensures[C09,C08,C05] @acct acct(ca) && capped(ca)
@@ -75,9 +84,9 @@ package cache
 //@   use tsumSame(ca.Cache, 0, old(len(ca.Cache))-1) && tsumOne(ca.Cache, 0)
 //@   ensures @scopes old(len(ca.Cache)) > 1 ==> len(ca.Cache) == old(len(ca.Cache)) - 1
 //@     && forall(i, 0, len(ca.Cache), ca.Cache[i] == old(ca.Cache[i]))
-//@   ensures[C09,C05] @last old(len(ca.Cache)) == 1 ==> len(ca.Cache) == 1 && all[string](k, !in(k, ca.Cache[0])) && msum(ca.Cache[0]) == 0
+//@   ensures @last old(len(ca.Cache)) == 1 ==> len(ca.Cache) == 1 && all[string](k, !in(k, ca.Cache[0])) && msum(ca.Cache[0]) == 0
 //@   ensures[C09] @released int(ca.CacheUseSize) == (old(int(ca.CacheUseSize)) - old(msum(top(ca)))) % 4294967296
-//@   ensures[C09,C05] @sizes all[string](k, in(k, ca.Sizes) <==> (old(in(k, ca.Sizes)) && !old(in(k, top(ca)))))
+//@   ensures @sizes all[string](k, in(k, ca.Sizes) <==> (old(in(k, ca.Sizes)) && !old(in(k, top(ca)))))
 //@   loop 1 modifies ca.CacheUseSize, ca.Sizes[*]
 //@   loop 1 invariant @members all[string](k, visited(k) ==> in(k, m))
 //@   loop 1 invariant @bytes int(ca.CacheUseSize) == (old(int(ca.CacheUseSize)) - vsum(m)) % 4294967296
@@ -87,6 +96,7 @@ package cache
 // changes nothing; an accepted call defines the symbol in the current scope
 // only and accounts for exactly its bytes.
 //@ func (*Cache).Add
+//@   serves C09
 //@   requires shape(ca) && int(ca.CacheSize) + len(value) < 4294967296
 //@   requires[C09,C08,C05] unique(ca) && sized(ca) && acct(ca) && capped(ca)
 //@   modifies ca.CacheUseSize, ca.LastValue, ca.Sizes[key], ca.Cache[len(ca.Cache)-1][key]
@@ -94,12 +104,13 @@ package cache
 //@   ensures[C09,C08,C05] @unique unique(ca)
 //@   ensures[C09,C08,C05] @sized sized(ca)
 //@   ensures[C09,C08,C05] @acct acct(ca) && capped(ca)
-//@   ensures[C09,C05] @limit sizeLimit > 0 && len(value) > int(sizeLimit) ==> result != nil
-//@   ensures[C09,C05] @dup old(visible(ca, key)) ==> result != nil
-//@   ensures[C09] @capacity ca.CacheSize > 0 && old(total(ca)) + len(value) > int(ca.CacheSize) ==> result != nil
-//@   ensures[C09] @rejected result != nil ==> unchanged(ca.CacheUseSize, ca.LastValue) && in(key, ca.Sizes) == old(in(key, ca.Sizes)) && ca.Sizes[key] == old(ca.Sizes[key])
+//@   ensures @limit sizeLimit > 0 && len(value) > int(sizeLimit) ==> result != nil
+//@   ensures @dup old(visible(ca, key)) ==> result != nil
+//@   ensures @errdup result == ErrDup ==> old(visible(ca, key))
+//@   ensures @capacity ca.CacheSize > 0 && old(total(ca)) + len(value) > int(ca.CacheSize) ==> result != nil
+//@   ensures @rejected result != nil ==> unchanged(ca.CacheUseSize, ca.LastValue) && in(key, ca.Sizes) == old(in(key, ca.Sizes)) && ca.Sizes[key] == old(ca.Sizes[key])
 //@     && in(key, top(ca)) == old(in(key, top(ca))) && top(ca)[key] == old(top(ca)[key]) && total(ca) == old(total(ca))
-//@   ensures[C09,C05] @stored result == nil ==> in(key, top(ca)) && top(ca)[key] == value && in(key, ca.Sizes) && ca.Sizes[key] == sizeLimit
+//@   ensures @stored result == nil ==> in(key, top(ca)) && top(ca)[key] == value && in(key, ca.Sizes) && ca.Sizes[key] == sizeLimit
 //@     && total(ca) == old(total(ca)) + len(value) && msum(top(ca)) == old(msum(top(ca))) + len(value) && ca.LastValue == value
 //@   use old(tsumSplit(ca.Cache, 0, len(ca.Cache)-1, len(ca.Cache))) && old(tsumOne(ca.Cache, len(ca.Cache)-1))
 //@   use tsumSplit(ca.Cache, 0, len(ca.Cache)-1, len(ca.Cache)) && tsumOne(ca.Cache, len(ca.Cache)-1)
@@ -111,6 +122,7 @@ package cache
 // Update: same limit rule as Add; a rejected update restores the previous
 // value and size; an accepted one replaces exactly that symbol's bytes.
 //@ func (*Cache).Update
+//@   serves C09
 //@   requires shape(ca) && int(ca.CacheSize) + len(value) < 4294967296
 //@   requires[C09,C08,C05] unique(ca) && sized(ca) && acct(ca) && capped(ca)
 //@   modifies ca.CacheUseSize, ca.Cache[scope(ca, key)][key]
@@ -119,28 +131,30 @@ package cache
 //@   ensures[C09,C08,C05] @sized sized(ca)
 //@   ensures[C09,C08,C05] @acct acct(ca)
 //@   ensures[C09,C08,C05] @capped capped(ca)
-//@   ensures[C09,C05] @limit old(ca.Sizes[key]) > 0 && len(value) > int(old(ca.Sizes[key])) ==> result != nil
-//@   ensures[C09,C05] @missing !old(visible(ca, key)) ==> result != nil
-//@   ensures[C09] @capacity ca.CacheSize > 0 && old(total(ca)) - old(len(ca.Cache[scope(ca, key)][key])) + len(value) > int(ca.CacheSize) ==> result != nil
-//@   ensures[C09,C05] @accepts old(visible(ca, key)) && (old(ca.Sizes[key]) == 0 || len(value) <= int(old(ca.Sizes[key])))
+//@   ensures @limit old(ca.Sizes[key]) > 0 && len(value) > int(old(ca.Sizes[key])) ==> result != nil
+//@   ensures @missing !old(visible(ca, key)) ==> result != nil
+//@   ensures @capacity ca.CacheSize > 0 && old(total(ca)) - old(len(ca.Cache[scope(ca, key)][key])) + len(value) > int(ca.CacheSize) ==> result != nil
+//@   ensures @accepts old(visible(ca, key)) && (old(ca.Sizes[key]) == 0 || len(value) <= int(old(ca.Sizes[key])))
 //@     && (ca.CacheSize == 0 || old(total(ca)) - old(len(ca.Cache[scope(ca, key)][key])) + len(value) <= int(ca.CacheSize)) ==> result == nil
-//@   ensures[C09] @rejected result != nil ==> unchanged(ca.CacheUseSize) && total(ca) == old(total(ca))
+//@   ensures @rejected result != nil ==> unchanged(ca.CacheUseSize) && total(ca) == old(total(ca))
 //@     && in(key, ca.Cache[old(scope(ca, key))]) == old(in(key, ca.Cache[scope(ca, key)]))
 //@     && ca.Cache[old(scope(ca, key))][key] == old(ca.Cache[scope(ca, key)][key])
-//@   ensures[C09,C05] @stored result == nil ==> in(key, ca.Cache[old(scope(ca, key))]) && ca.Cache[old(scope(ca, key))][key] == value
+//@   ensures @stored result == nil ==> in(key, ca.Cache[old(scope(ca, key))]) && ca.Cache[old(scope(ca, key))][key] == value
 //@   ensures[C09] @delta result == nil ==> total(ca) == old(total(ca)) - old(len(ca.Cache[scope(ca, key)][key])) + len(value)
 //@   use old(tsumSplit(ca.Cache, 0, scope(ca, key), len(ca.Cache))) && old(tsumSplit(ca.Cache, scope(ca, key), scope(ca, key) + 1, len(ca.Cache))) && old(tsumOne(ca.Cache, scope(ca, key)))
 //@   use tsumSplit(ca.Cache, 0, old(scope(ca, key)), len(ca.Cache)) && tsumSplit(ca.Cache, old(scope(ca, key)), old(scope(ca, key)) + 1, len(ca.Cache)) && tsumOne(ca.Cache, old(scope(ca, key)))
 //@   use tsumSame(ca.Cache, 0, old(scope(ca, key))) && tsumSame(ca.Cache, old(scope(ca, key)) + 1, len(ca.Cache))
 
 //@ func (*Cache).Get
+//@   serves C09
 //@   requires shape(ca)
 //@   requires[C09,C05] unique(ca)
-//@   ensures[C09,C05] @found result1 == nil ==> visible(ca, key) && in(key, ca.Cache[scope(ca, key)]) && result0 == ca.Cache[scope(ca, key)][key]
-//@   ensures[C09,C05] @missing result1 != nil ==> !visible(ca, key)
+//@   ensures @found result1 == nil ==> visible(ca, key) && in(key, ca.Cache[scope(ca, key)]) && result0 == ca.Cache[scope(ca, key)][key]
+//@   ensures @missing result1 != nil ==> !visible(ca, key)
 
 // Reset keeps the first scope only and recomputes the used size from it.
 //@ func (*Cache).Reset
+//@   serves C09
 //@   requires shape(ca)
 //@   requires[C09,C08,C05] unique(ca) && sized(ca) && acct(ca) && capped(ca)
 //@   modifies ca.Cache, ca.CacheUseSize
@@ -158,15 +172,18 @@ package cache
 //@   loop 1 invariant @bytes int(ca.CacheUseSize) == vsum(ca.Cache[0]) % 4294967296
 
 //@ func (*Cache).Levels
+//@   serves C09
 //@   requires ca != nil
 //@   ensures int(result) == len(ca.Cache)
 
 //@ func (*Cache).ReservedSize
+//@   serves C09
 //@   requires ca != nil
-//@   ensures[C09,C05] @known result1 == nil ==> in(key, ca.Sizes) && result0 == ca.Sizes[key]
-//@   ensures[C09,C05] @unknown result1 != nil ==> !in(key, ca.Sizes)
+//@   ensures @known result1 == nil ==> in(key, ca.Sizes) && result0 == ca.Sizes[key]
+//@   ensures @unknown result1 != nil ==> !in(key, ca.Sizes)
 
 //@ func (*Cache).Last
+//@   serves C09
 //@   requires ca != nil
 //@   modifies ca.LastValue
 //@   ensures result == old(ca.LastValue) && ca.LastValue == ""
